@@ -288,10 +288,17 @@ struct sinit_probe
       }
     }
   };
+#if defined(VERIF_SINIT_LAZY)
+// sanitizer / fuzz builds: the probe runs at the first sinit_* call (inside the forked child of that entry point), so that a
+// report it provokes neither aborts the process before main nor uses up the sanitizer's per-site de-duplication
+inline const sinit_probe & sinit() { static const sinit_probe p; return p; }
+#else
 const sinit_probe g_sinit;
+inline const sinit_probe & sinit() { return g_sinit; }
+#endif
 }
 #define SINIT_ENTRY(name, field, now) \
-  W_RT(sinit_##name) { UNUSED_B; return g_sinit.field[static_cast<size_t>(a) % 12]; } \
+  W_RT(sinit_##name) { UNUSED_B; return sinit().field[static_cast<size_t>(a) % 12]; } \
   W_RT(snow_##name) { UNUSED_B; int i = static_cast<int>(static_cast<size_t>(a) % 12); int64_t x = SINIT_ARGS[i]; (void)x; return now; }
 SINIT_ENTRY(sin_angle_aprox, sin_ap, sin_angle_aprox(static_cast<int32_t>(x)).v)
 SINIT_ENTRY(cos_angle_aprox, cos_ap, cos_angle_aprox(static_cast<int32_t>(x)).v)
